@@ -251,6 +251,17 @@ func Run(ctx *common.Ctx) int {
 		p, _ := json.Marshal(Params{S: c.s, N: c.n, Output: c.o})
 		tasks = append(tasks, e1.Task{Check: "C20", Name: fmt.Sprintf("c20/s%d/n%d/W%d/out=%s/b1/p%d", c.s, c.n, c.W, c.o, c.pol), Params: p, Bound: 1, Policy: c.pol, W: c.W, NShards: 1, CostAll: true})
 	}
+	if !quick {
+		// the smallest configurations at deviation bound 4
+		for _, sN := range []int{1, 2} {
+			for _, o := range []string{"", "nested/a/b"} {
+				p, _ := json.Marshal(Params{S: sN, N: 64, Output: o})
+				for sh := 0; sh < 16; sh++ {
+					tasks = append(tasks, e1.Task{Check: "C20", Name: fmt.Sprintf("c20/s%d/n64/W2/out=%s/b4", sN, o), Params: p, Bound: 4, Policy: 0, W: 2, Shard: sh, NShards: 16, CostAll: true})
+				}
+			}
+		}
+	}
 	for _, s := range []int{1, 2, 3, 4} {
 		for _, n := range []int{64, 20000} {
 			for _, W := range []int{1, 2, 3} {
@@ -398,7 +409,7 @@ func Run(ctx *common.Ctx) int {
 		"instrumentation":          info.Counts,
 		"max_points_per_execution": m.MaxPoints,
 		"end_to_end_runs":          e2e,
-		"bounds":                   "deviation bound 1 (thorough: 2 for s<=3, n=64); W<=3; s<=4 in five output forms under the ascending-id policy, s in {3..9} under all three default policies",
+		"bounds":                   "deviation bound 1 (thorough: 2 for s<=3, n=64; 4 for s<=2, W=2); W<=3; s<=4 in five output forms under the ascending-id policy, s in {3..9} under all three default policies",
 		"exhaustive":               len(m.Capped) == 0 && len(m.ToolErrors) == 0,
 	}
 	return ctx.Finish("model_checking", cov, []string{"file operations (MkdirAll, OpenFile, Write, Close) and the random source's Read are scheduling points; the real file system under a scratch directory is the observed state",
